@@ -655,7 +655,13 @@ pub fn generate(seed: u64, flavor: &str) -> RunSpec {
                 thread: t,
                 op,
                 poll,
-                step: 1 + rng.below(60) as u64,
+                // early in the call, or somewhere in its first few thousand steps (a budget
+                // that is only consulted every so many steps)
+                step: 1 + if rng.chance(60, 100) {
+                    rng.below(60)
+                } else {
+                    rng.below(4000)
+                } as u64,
                 ms: *rng.pick(&[5u64, 50, 500, 5_000, 3_600_000]),
             });
         }
